@@ -102,6 +102,7 @@ func VerifH_C35_SessionRequired() {
 		&ua.SetMonitoringModeRequest{RequestHeader: hdr(), MonitoredItemIDs: []uint32{1}},
 		&ua.DeleteMonitoredItemsRequest{RequestHeader: hdr(), MonitoredItemIDs: []uint32{1}},
 		&ua.CallRequest{RequestHeader: hdr()},
+		&ua.CloseSessionRequest{RequestHeader: hdr()}, // not session establishment: needs an activated session too
 	}
 	req := reqs[vfConcrete(vfInt("request", 0, len(reqs)-1))]
 	before := vfTCPWrites(c.tcp)
@@ -123,5 +124,8 @@ func VerifH_C35_SessionRequired() {
 	// ... and performs no action
 	vfAssert(node.Value().Value.Value() == interface{}(int32(7)), "a request without an activated session changed a node value")
 	vfAssert(len(s.SubscriptionService.Subs) == 0, "a request without an activated session created a subscription")
+	if kind == 2 {
+		vfAssert(s.sb.Session(tok) != nil, "a request on a session that was never activated removed the session")
+	}
 	vfReach("refused")
 }
